@@ -50,7 +50,7 @@ PROPS = {
               "parser is outside both verifiers; it is covered by a BOUNDED native run (labelled bounded, not counted as proved).",
               "clauses proved: no-op on a tree without missing references (both scan and cached path, lock value unchanged); inserted token reads back: "
               "token_rule(inserted token) == Some(id) and extract_spec == token_rule (relative to the regex-pattern and parse axioms of spec/token_link.rs), "
-              "structured `ref = N` parses back to N. Bounded stand-in for the parser: 384 (thorough 576) canonical statements x 2 styles run through the release "
+              "structured `ref = N` parses back to N. Bounded stand-in for the parser: 432 (thorough 648) canonical statements x 2 styles run through the release "
               "binary edit -> check -> edit and re-read by the real library",
               extra=[("roundtrip_bounded", _c06r.run)]),
     "C07": _p(["generate", "main", "context"], COMMON_TRUST + " POSIX rename atomicity; async-std write-cache model; fresh temp name. Operation granularity "
@@ -63,7 +63,7 @@ PROPS = {
     "C11": _p(["find"], COMMON_TRUST + " The configured-macro clause is PROVED. The comment / string-literal clauses are the grammar's COMMENT and string rules as executed by "
               "pest (outside both verifiers): covered by a BOUNDED native run of decoys (labelled bounded, not counted as proved).",
               "macro_of_interest == exact name or module::name; find emits nothing for other names (result == tree_entries). Bounded stand-in for the grammar clauses: "
-              "58 (thorough 61) decoys x 2 styles (commented-out statements incl. last line without newline, LF/CRLF, unconfigured look-alike names, no literal message, "
+              "75 (thorough 78) decoys x 2 styles, two macros configured (log::info, tracing::warn) (commented-out statements incl. last line without newline, LF/CRLF, a bare CR in a comment, split or crosswise module paths, unconfigured look-alike names, no literal message, "
               "macro-like text in string literals) through the release binary: not reported by --check, not modified by an edit",
               extra=[("decoys_bounded", _c11d.run)]),
     "C12": _p(["entry", "find", "directive"], "regex crate and str::parse::<u32> are exercised natively on the enumerated set only (BOUNDED, not proved). " + COMMON_TRUST,
